@@ -90,6 +90,14 @@ func c09(e *Env) {
 		tok        string
 	}
 	var history []c09sent
+	// judged as it happens (a proxy that forwards such a statement may go on re-preparing it for
+	// ever): a statement that the proxy answered itself never reaches a backend later
+	answeredLocally := map[string]string{}
+	w.OnAttempt = func(a *world.Attempt) {
+		if text, ok := answeredLocally[a.Token]; ok {
+			w.Violate("c09-route", "system-read-forwarded(later)", fmt.Sprintf("%s was answered by the proxy itself; later a %s carrying that statement reached %s", text, a.OpCode, a.Conn))
+		}
+	}
 	checked, handledN, forwardedN := 0, 0, 0
 	nOps := 30 + c.Choose("c09ops", 70)
 	// systematic component: the cell index sweeps the cross product across seeds
@@ -237,6 +245,11 @@ func c09(e *Env) {
 		}
 		if expectHandled {
 			handledN++
+			if q != "" {
+				// (qualified: who answers does not depend on the keyspace that is current when the
+				// same text is sent again)
+				answeredLocally[tok] = text
+			}
 		} else {
 			forwardedN++
 		}
@@ -253,6 +266,37 @@ func c09(e *Env) {
 				if len(w.Attempts[tok2]) > 0 {
 					w.Violate("c09-route", "system-read-forwarded", "EXECUTE of the locally prepared "+text+" reached a backend")
 					return
+				}
+				// drivers prepare on one connection and execute on any: the same id arrives on a
+				// connection that never prepared it. Whatever the proxy answers there (an id unknown to
+				// that connection may be forwarded and come back UNPREPARED), the statement itself -
+				// a read of a system table - never reaches a backend, as a PREPARE or otherwise
+				if len(f.clients) > 1 && c.Choose("c09exec-elsewhere", 3) == 2 {
+					other := f.clients[(ci+1+c.Choose("c09otherclient", len(f.clients)-1))%len(f.clients)]
+					if other != cl && other.Connected() && other.Version == cl.Version {
+						tok3 := w.NewToken()
+						ex2 := other.Send("execute", tok3, world.ExecMsg(pr.PreparedQueryId, pr.ResultMetadataId, tok3, primitive.ConsistencyLevelOne), nil)
+						if !w.RunUntil(func() bool { return len(ex2.Replies) > 0 }, 5*time.Minute) {
+							return
+						}
+						w.Quiesce()
+						if len(w.Attempts[tok]) > attemptsBefore {
+							a := w.Attempts[tok][len(w.Attempts[tok])-1]
+							w.Violate("c09-route", "system-read-forwarded(after EXECUTE on another connection)", fmt.Sprintf("%s was prepared by %s and answered by the proxy; after %s executed its id, a %s carrying the statement reached %s", text, cl, other, a.OpCode, a.Conn))
+							return
+						}
+						if rr, ok := replyMsg(ex2).(*message.RowsResult); ok {
+							for _, row := range rr.Data {
+								for _, colv := range row {
+									if strings.Contains(string(colv), world.SentinelClusterName) || strings.Contains(string(colv), "rack-backend") {
+										w.Violate("c09-leak", "backend-topology-leaked", desc+": executed on another connection, the client received a row of the backend's own system table")
+										return
+									}
+								}
+							}
+						}
+						e.Res.Stats["probe.c09.system_statement_executed_on_another_connection"]++
+					}
 				}
 			}
 		}
